@@ -8,4 +8,4 @@ CONSTANTS
   Parts = {}
 INIT TraceInit
 NEXT TraceNext
-INVARIANTS Report TypeOK NoLossNoDup ResultIsNext LenExact PeekStable CopiesValid FlushComplete ShortOnlyAtError SinkPrefix
+INVARIANTS Report TypeOK NoLossNoDup ResultIsNext LenExact PeekStable CopiesValid FlushComplete ShortOnlyAtError SinkPrefix CallerIntact
